@@ -49,26 +49,22 @@ def twin_build(bb, res, m, hundred):
     ay = ymax - ymin
     if res is None:
         am = max(ax, ay)
-        r = am / hundred
-        cs, ls = max(1, int(ax / r)), max(1, int(ay / r))
+        r = am / hundred if am > 0 else 1
+        r = (r, r)
     else:
-        cs, ls = int(ax / res[0]), int(ay / res[1])
-    dX = ax / cs
-    dY = ay / ls
+        r = res
+    cs, ls = max(1, int(ax / r[0])), max(1, int(ay / r[1]))
+    dX = ax / cs if ax > 0 else r[0]
+    dY = ay / ls if ay > 0 else r[1]
     return (xmin, xmax, ymin, ymax, cs, ls, dX, dY)
 
 
 def twin_cell(info, x, y):
-    """__getCell; raises ZeroDivisionError for a point inside an extent with a zero cell side"""
+    """__getCell"""
     xmin, xmax, ymin, ymax, cs, ls, dX, dY = info
     if x < xmin or x > xmax or y < ymin or y > ymax:
         return None
     return ((x - xmin) / dX, (y - ymin) / dY)
-
-
-def flat_grid(tw):
-    """the twin built a grid with a zero cell side (flat extent, default resolution)"""
-    return tw not in (None, "zerodiv") and (tw[6] == 0 or tw[7] == 0)
 
 
 def case_bbox(case):
@@ -81,8 +77,8 @@ def case_bbox(case):
 
 
 def exact_twin(case):
-    """Fraction run of the constructor up to the registration loop: info tuple (a cell side may be 0: see `flat_grid`),
-    or 'zerodiv', or None (no feature)"""
+    """Fraction run of the constructor up to the registration loop: info tuple, or 'zerodiv' (a cell size 0 given by
+    the caller), or None (no feature)"""
     bb = case_bbox(case)
     if bb is None:
         return None
@@ -151,8 +147,6 @@ def _exact_case(case):
         return False
     if not (small_dyadic(iq[6]) and small_dyadic(iq[7]) and all(small_dyadic(v) for v in iq[:4])):
         return False
-    if iq[6] == 0 or iq[7] == 0:
-        return True        # zero cell side: only the (exact) range tests of __getCell are computed before it raises
     for p in case_points(case):
         cq = twin_cell(iq, fr(p[0]), fr(p[1]))
         cf = twin_cell(if_, fl(p[0]), fl(p[1]))
@@ -287,20 +281,20 @@ class P(Prop):
         (M, "TV.C08.units_sound", "with positive cell sides groundDistanceToUnits(d) returns floor(d/min(dX,dY)+1) and points at most d apart on each axis fall in cells whose column/row indices differ by at most that many units"),
         (M, "TV.C08.neighboringCells_square", "__neighboringcells(i,j,u) is exactly the Chebyshev square of radius u around (i,j) clipped to the grid"),
         (M, "TV.C08.neighborhood_complete", "groundDistanceToUnits(d) and neighborhood(q, unit=groundDistanceToUnits(d)), q inside the extent, d >= 0, do not raise and every feature with a point within Euclidean distance d of q is returned"),
-        (M, "TV.C08.vertex_on_upper_border_raises", "formal side of finding D10: if the constructor returns, no point of a feature segment has x = xmax or y = ymax (so with margin 0 a right-/top-most vertex of a 2+-point track makes it raise)"),
-        (M, "TV.C08.point_query_on_upper_border_raises", "formal side of finding query-on-upper-border: request(q) with q.x = xmax or q.y = ymax raises on every built index: IndexError when the extent is not flat, ZeroDivisionError (in __getCell) when it is"),
-        (M, "TV.C08.default_resolution_builds", "the repair 9a44198: default resolution, margin >= 0, bounding box not a single point: __init__ reaches the registration loop without raising for every aspect ratio, with >= 1 column and >= 1 row and a positive cell side on every axis of positive length"),
-        (M, "TV.C08.flat_extent_raises", "formal side of finding default-resolution-flat-extent: if the constructor returns over a collection that has a segment then xmin < xmax, ymin < ymax and no cell side is 0 (so a straight east-west or north-south track makes it raise ZeroDivisionError)"),
+        (M, "TV.C08.vertex_on_upper_border_raises", "formal side of finding D10: if the constructor returns, no point of a feature segment has x = xmax (y = ymax) on an axis of positive length (so with margin 0 a right-/top-most vertex of a 2+-point track makes it raise, unless all vertices share that abscissa / ordinate)"),
+        (M, "TV.C08.point_query_on_upper_border_raises", "formal side of finding query-on-upper-border: request(q) with q.x = xmax > xmin or q.y = ymax > ymin raises IndexError on every built index"),
+        (M, "TV.C08.grid_always_builds", "the repairs 9a44198 and degenerate-extent: default or positive explicit cell size, ANY bounding box (thin, flat, a single point, shorter than the cell size): __init__ reaches the registration loop without raising, with >= 1 column and >= 1 row, positive cell sides, cells tiling every axis of positive length exactly and one column / row on an axis of zero length"),
+        (M, "TV.C08.flat_axis_single_column", "on a built index whose extent has zero length along an axis (a straight north-south or east-west track) that axis has one column / row and every point of the extent has index 0 on it"),
         (M, "TV.C08.isFloor_ratFloor", "Rat.floor, the driver's math.floor, satisfies the floor contract assumed by the theorems"),
     ]
     partial = []
     open_statements = [
         "theorems are over an ordered field with an exact floor: IEEE rounding in (x-xmin)/dX and in the straddle products is outside them (sampled by the flt stream with a 1e-7-cell guard)",
         "segment_query_complete / track_query_complete are conditional on the request returning (a query touching the upper border of the extent raises IndexError: finding query-on-upper-border)",
-        "index_complete and the theorems built on it speak about constructor calls that return: with margin 0 none does (finding vertex-on-upper-border), nor over a flat extent (all vertices on one horizontal or vertical line) when a feature has a segment (finding default-resolution-flat-extent, theorem flat_extent_raises); thin extents with the default resolution are ordinary since 9a44198 (theorem default_resolution_builds)",
+        "index_complete and the theorems built on it speak about constructor calls that return: with margin 0 a vertex on the upper border of an axis of positive length makes the registration loop raise (finding vertex-on-upper-border); thin, flat and single-point extents and cells larger than the extent are ordinary (theorems grid_always_builds, flat_axis_single_column)",
         "the unit = -1 incremental searches of neighborhood and the given-unit segment/track neighbourhoods are modelled and compared with the implementation, no theorem is stated about them (the property does not mention them)",
     ]
-    modelled = ("SpatialIndex.__init__ (extent from bbox + margin, explicit and default resolution), __getCell, "
+    modelled = ("SpatialIndex.__init__ (extent from bbox + margin, explicit and default resolution, one column / row and a non-zero cell side on a degenerate axis), __getCell, "
                 "__cellsCrossSegment, __addSegment, addFeature, request (cell/point/segment/track), __neighboringcells, "
                 "neighborhood (cell/point/segment/track; unit >= 0 and the incremental unit = -1 search), "
                 "groundDistanceToUnits, __addCellValuesInTAB of core/spatial_index.py; cartesienne, __eval, "
@@ -310,8 +304,9 @@ class P(Prop):
                "mode flt: the Float instantiation of the model reproduces Python's doubles operation by operation; "
                "rounding is outside the theorems, the flt-mode oracle keeps a guard of 1e-7 cell around cell borders"]
     rule = ("exhaustive: every segment between points of a half-integer lattice through __cellsCrossSegment, every 2-vertex track of a "
-            "small lattice indexed and queried at every lattice point of the extent; random: 1-3 features (tracks or network edges) of 2-4 "
-            "vertices on a half-integer lattice, square / non-square / default resolutions (the latter with aspect ratios from 1 to 400, i.e. down to one row or column), margins 1/2, 1/20, 1/4, 0, lattice queries "
+            "small lattice (axis-parallel ones included: flat extents) indexed and queried at every lattice point of the extent; random: 1-3 features (tracks or network edges) of 2-4 "
+            "vertices on a half-integer lattice, square / non-square / default resolutions (the latter with aspect ratios from 1 to 400, i.e. down to one row or column; explicit cells up to larger than the extent), "
+            "about 7 % degenerate extents (all vertices on one vertical or horizontal line, or at one point), margins 1/2, 1/20, 1/4, 0, lattice queries "
             "(points, segments, tracks, cells, neighbourhoods in units and from ground distances 0..grid size), later addFeature calls; "
             "plus a float stream with random coordinates. non-trivial = the index is built (or its construction is the finding) and at "
             "least one feature segment and one query are present")
@@ -553,20 +548,17 @@ class P(Prop):
     # ------------------------------------------------------------------ oracle (transfer)
     def precondition(self, case):
         """the configurations the property quantifies over: a non-empty feature set with at least one segment,
-        margin >= 0, and either the default resolution or an explicit cell size that is positive and not larger
-        than the extent (so that at least one cell exists)"""
+        margin >= 0, and either the default resolution or an explicit positive cell size (a cell size larger than the
+        extent is legitimate: one column / row). Flat extents (all vertices on one horizontal or vertical line) and
+        single-point bounding boxes are ordinary feature sets."""
         if not case["feats"] or any(len(f) < 1 for f in case["feats"]) or not any(len(f) >= 2 for f in case["feats"]):
             return False
         if fr(case["margin"]) < 0:
             return False
-        bb = case_bbox(case)
-        m = fr(case["margin"])
-        ax = (bb[1] - bb[0]) * (1 + 2 * m)
-        ay = (bb[3] - bb[2]) * (1 + 2 * m)
         if case["res"] is None:
             return True
         rx, ry = fr(case["res"][0]), fr(case["res"][1])
-        return 0 < rx <= ax and 0 < ry <= ay
+        return 0 < rx and 0 < ry
 
     def spec(self, case, out):
         f = self.first_failure(case, out)
@@ -684,9 +676,6 @@ class P(Prop):
         """classes of the listed findings, each a decidable predicate on the case and the first failure:
         vertex-on-upper-border: margin 0 and construction raises IndexError (a vertex with x = xmax or y = ymax of the
             extent gets column/row index csize/lsize)
-        default-resolution-flat-extent: resolution None, all vertices on one horizontal or vertical line (a side of the
-            bounding box is 0) and construction raises ZeroDivisionError (cell side 0 in __getCell, or r = 0 when the
-            bounding box is a single point)
         query-on-upper-border: a point/segment/track request having a point with x = xmax or y = ymax raises IndexError"""
         if not isinstance(impl_out, dict):
             return None
@@ -696,10 +685,6 @@ class P(Prop):
         tag, n, _ = f
         tw = exact_twin(case)
         if tag == "construction":
-            if impl_out["err"] == "err:zerodiv" and case["res"] is None and (tw == "zerodiv" or flat_grid(tw)):
-                bb = case_bbox(case)
-                if bb[1] == bb[0] or bb[3] == bb[2]:
-                    return "default-resolution-flat-extent"
             if impl_out["err"] == "err:index" and tw not in (None, "zerodiv") and fr(case["margin"]) == 0:
                 xmax, ymax = tw[1], tw[3]
                 pts = [p for f in case["feats"] for p in f]
@@ -733,8 +718,8 @@ class P(Prop):
         qs = []
         if full:
             border = 1 if rng.random() < 0.03 else 0
-            for a in range(nx + border):
-                for b in range(ny + border):
+            for a in range(max(1, nx) + border):          # a flat axis (nx = 0) has the one abscissa xmin = xmax
+                for b in range(max(1, ny) + border):
                     qs.append(["pt", float(xmin + step * a), float(ymin + step * b)])
             return qs
         size = float(max(xmax - xmin, ymax - ymin))
@@ -798,6 +783,16 @@ class P(Prop):
                     W, H = rng.choice([5, 10, 20]), rng.choice([5, 10, 20])
                 else:
                     W, H = rng.choice([1, 2, 3, 4, 6, 8, 2.5, 5]), rng.choice([1, 2, 3, 4, 6, 8, 2.5, 5])
+            # degenerate extents (ordinary inputs since the degenerate-extent repair): all vertices on one vertical or
+            # horizontal line (a straight east-west track), or all at one point
+            degen = rng.random() if not thin else 1.0
+            if degen < 0.07:
+                if degen < 0.03:
+                    W = 0
+                elif degen < 0.06:
+                    H = 0
+                else:
+                    W = H = 0
             feats = [[[rng.randrange(0, int(2 * W) + 1) / 2, rng.randrange(0, int(2 * H) + 1) / 2] for _ in range(rng.randrange(*nv))]
                      for _ in range(nf)]
             # make the bbox exactly W x H
@@ -806,10 +801,14 @@ class P(Prop):
             rng.choice([p for p in flat if p[0] != 0.0] or flat)[0] = float(W)
             rng.choice(flat)[1] = 0.0
             rng.choice([p for p in flat if p[1] != 0.0] or flat)[1] = float(H)
+            if degen < 0.07 and rng.random() < 0.5:
+                # not at the origin
+                ox, oy = rng.randrange(-6, 7) / 2, rng.randrange(-6, 7) / 2
+                feats = [[[p[0] + ox, p[1] + oy] for p in f] for f in feats]
             if default:
                 res = None
                 # default resolution is exact when the larger side of the extent is 25, 50 or 100
-                k = rng.choice([12.5, 25, 50]) / max(W, H)
+                k = rng.choice([12.5, 25, 50]) / max(W, H) if max(W, H) > 0 else 1
                 feats = [[[p[0] * k, p[1] * k] for p in f] for f in feats]
                 if thin:
                     # squash the short axis: its extent becomes 1/4, 1/2, 1, 2 or 4 times r = (long extent)/100,
@@ -823,12 +822,11 @@ class P(Prop):
                 s = rng.choice([0.5, 1, 2])
                 res = [s, s]
             else:
-                res = [rng.choice([0.25, 0.5, 1, 2, 4]), rng.choice([0.25, 0.5, 1, 2, 4])]
+                # non-square cells, up to larger than the extent on an axis (then one column / row)
+                res = [rng.choice([0.25, 0.5, 1, 2, 4, 8, 16]), rng.choice([0.25, 0.5, 1, 2, 4, 8, 16])]
             case = {"kind": "lattice", "net": rng.random() < 0.25, "feats": feats, "res": res, "margin": margin, "late": [], "queries": []}
             tw = exact_twin(case)
-            if tw in (None, "zerodiv") or flat_grid(tw):
-                if rng.random() < 0.05 and exact_case(case):
-                    return case
+            if tw in (None, "zerodiv"):
                 continue
             if res is not None and tw[4] * tw[5] > 1600:
                 continue
@@ -854,35 +852,46 @@ class P(Prop):
         nf = rng.randrange(1, 4)
         feats = [[[rnd(), rnd()] for _ in range(rng.randrange(2, 5))] for _ in range(nf)]
         margin = rng.choice(["1/20", "1/20", "1/2", "1/10", "0.3"])
+        degen = rng.random()
+        if degen < 0.06:
+            # all vertices on one vertical / horizontal line, or (rarely) at one point
+            p0 = feats[0][0]
+            for f in feats:
+                for p in f:
+                    if degen < 0.025 or degen >= 0.05:
+                        p[0] = p0[0]
+                    if degen >= 0.025:
+                        p[1] = p0[1]
         bb = case_bbox({"feats": feats})
         ax, ay = float(bb[1] - bb[0]) * 1.1, float(bb[3] - bb[2]) * 1.1
-        if ax <= 0 or ay <= 0:
-            return self.float_case(rng, tier)
+        base = min(ax, ay) if min(ax, ay) > 0 else (max(ax, ay) or 1.0)
         r = rng.random()
         if r < 0.1:
             res = None
             feats = [f[:3] for f in feats[:2]]
-            if rng.random() < 0.5:
+            if rng.random() < 0.5 and ax > 0 and ay > 0:
                 # thin extent: aspect ratio around 30 .. 1000 (int(short / r) = 0 .. 3 rows or columns)
                 a, q = rng.randrange(2), rng.choice([30, 60, 90, 150, 400, 1000])
                 feats = [[[p[0] / (q if a == 0 else 1), p[1] / (q if a == 1 else 1)] for p in f] for f in feats]
                 if len({p[a] for f in feats for p in f}) < 2:
                     return self.float_case(rng, tier)
         elif r < 0.5:
-            s = round(min(ax, ay) / rng.choice([1.5, 3, 7, 12]), 3)
+            s = round(base / rng.choice([0.6, 1.5, 3, 7, 12]), 3)
             res = [s, s]
         else:
-            res = [round(ax / rng.choice([1.5, 3, 7, 12, 30]), 3), round(ay / rng.choice([1.5, 3, 7, 12, 30]), 3)]
+            # a divisor < 1 gives a cell larger than the extent on that axis: one column / row
+            res = [round((ax or base) / rng.choice([0.6, 1.5, 3, 7, 12, 30]), 3), round((ay or base) / rng.choice([0.6, 1.5, 3, 7, 12, 30]), 3)]
         if res is not None and (res[0] <= 0 or res[1] <= 0):
             res = None
         case = {"kind": "float", "net": rng.random() < 0.2, "feats": feats, "res": res, "margin": margin, "late": [], "queries": []}
         tw = exact_twin(case)
-        if tw in (None, "zerodiv") or flat_grid(tw):
+        if tw in (None, "zerodiv"):
             return case
         if res is not None and (tw[4] * tw[5] > 4000 or max(tw[4], tw[5]) > 400):
             return self.float_case(rng, tier)      # keep the quadratic loops of the code affordable
         xmin, xmax, ymin, ymax = (float(v) for v in tw[:4])
-        P = lambda: [round(rng.uniform(xmin, xmax), 3), round(rng.uniform(ymin, ymax), 3)]
+        # (on a flat axis the only admissible abscissa is xmin = xmax itself: no rounding)
+        P = lambda: [xmin if xmin == xmax else round(rng.uniform(xmin, xmax), 3), ymin if ymin == ymax else round(rng.uniform(ymin, ymax), 3)]
         size = max(xmax - xmin, ymax - ymin)
         qs = []
         for _ in range(rng.randrange(3, 8)):
@@ -929,12 +938,10 @@ class P(Prop):
         sizes = [(1, 1), (0.5, 1), (2, 0.5)] if tier == "quick" else [(1, 1), (0.5, 0.5), (0.5, 1), (2, 0.5), (1, 2), (2, 2)]
         for ia, a in enumerate(lp):
             for b in lp[ia + 1:]:
-                if a[0] == b[0] or a[1] == b[1]:
-                    continue
                 for res in sizes:
                     case = {"kind": "track2", "net": False, "feats": [[a, b]], "res": list(res), "margin": "1/2", "late": [], "queries": []}
                     tw = exact_twin(case)
-                    if tw in (None, "zerodiv") or flat_grid(tw) or not self.precondition(case):
+                    if tw in (None, "zerodiv") or not self.precondition(case):
                         continue
                     case["queries"] = self.lattice_queries(tw, rng, case["feats"], tier, full=True)
                     if exact_case(case):
@@ -942,6 +949,10 @@ class P(Prop):
         # --- regression / finding witnesses
         out.append({"kind": "witness", "net": False, "feats": [[[0.0, 0.0], [1.0, 1.0]]], "res": [1, 1], "margin": "0", "late": [], "queries": [["pt", 0.5, 0.5]]})
         out.append({"kind": "witness", "net": False, "feats": [[[0.0, 0.0], [1000.0, 5.0]]], "res": None, "margin": "1/20", "late": [], "queries": [["pt", 500.0, 2.5]]})
+        out.append({"kind": "witness", "net": False, "feats": [[[0.0, 0.0], [10.0, 0.0]]], "res": None, "margin": "1/20", "late": [], "queries": [["pt", 5.0, 0.0], ["nd", 2.0, 0.0, 1.0]]})
+        out.append({"kind": "witness", "net": False, "feats": [[[0.0, 0.0], [10.0, 0.0]]], "res": [2, 2], "margin": "1/20", "late": [], "queries": [["pt", 5.0, 0.0], ["seg", 1.0, 0.0, 9.0, 0.0]]})
+        out.append({"kind": "witness", "net": False, "feats": [[[0.0, 0.0], [10.0, 1.0]]], "res": [2, 5], "margin": "1/20", "late": [], "queries": [["pt", 5.0, 0.5], ["nd", 5.0, 1.0, 0.5]]})
+        out.append({"kind": "witness", "net": False, "feats": [[[3.0, 4.0], [3.0, 4.0]]], "res": None, "margin": "1/20", "late": [], "queries": [["pt", 3.0, 4.0], ["nd", 3.0, 4.0, 2.0], ["units", 2.0]]})
         out.append({"kind": "witness", "net": False, "feats": [[[0.0, 0.0], [60.0, 0.0], [60.0, 4.0]], [[0.0, 10.0], [60.0, 10.0]]], "res": [60, 1], "margin": "1/2",
                     "late": [], "queries": [["nd", 30.0, 0.0, 10.0], ["units", 10.0]]})
         # --- random lattice (exact) and float streams
@@ -957,6 +968,13 @@ class P(Prop):
         t = {"kind": case["kind"], "mode": "rat" if exact_case(case) else "flt", "margin": str(case["margin"]),
              "res": "default" if res is None else "square" if fr(res[0]) == fr(res[1]) else "non-square",
              "net": bool(case.get("net")), "nfeat": len(case["feats"]), "late": bool(case.get("late"))}
+        bb = case_bbox(case)
+        if bb is not None:
+            fx, fy = bb[0] == bb[1], bb[2] == bb[3]
+            t["extent"] = "point" if fx and fy else "flat" if fx or fy else "2d"
+            tw = exact_twin(case)
+            if res is not None and tw not in (None, "zerodiv") and not (fx or fy):
+                t["cell>extent"] = bool(fr(res[0]) > tw[1] - tw[0] or fr(res[1]) > tw[3] - tw[2])
         return t
 
     def nontrivial(self, case):
